@@ -164,6 +164,23 @@ def c01(chk):
             if err > TOL[c.order]:
                 chk.violation('duration form and time-point form give different trajectories', c.describe(),
                               {'scaled_error': float(err)})
+    # very long trajectories (beyond any block size of a blocked summation or re-anchoring scheme inside the time bookkeeping):
+    # the oracle on the implementation's own output needs no model
+    longc = []
+    for order in (3, 5, 7):
+        for n in ([1030] if not chk.thorough() else [513, 1025, 1537, 2100]):
+            c = gen.spline_case(rng, order, rng.choice([1, 2]), n, with_grad=False, short=1.0)
+            c.mode = 'dur'
+            cum = [c.t0]
+            for x in c.h:
+                cum.append(cum[-1] + x)
+            c.evals = [(cum[i], m) for i in range(len(cum)) for m in range(S_OF[c.order])]
+            longc.append(c)
+            chk.count('very long trajectory (oracle only)')
+    cppl = runner.run_harness(harness(), [c.line(i, 'Q') for i, c in enumerate(longc)])[0]
+    chk.evaluations += len(longc)
+    for i, c in enumerate(longc):
+        c01_oracle(chk, c, cppl[str(i)])
     chk.sample(allc[0].describe())
     chk.sample(allc[-1].describe())
 
@@ -359,8 +376,8 @@ def c04(chk):
     # long trajectories (beyond any block size / unrolling width inside the energy loops); the oracle below needs no model
     nbig = len(cases)
     for order in (3, 5, 7):
-        for n in ([65, 130] if not chk.thorough() else [63, 64, 65, 127, 128, 129, 200, 257]):
-            cases.append(gen.spline_case(chk.rng, order, chk.rng.choice([1, 2, 3]), n, with_grad=False, short=1.0))
+        for n in ([65, 130, 520, 1030] if not chk.thorough() else [63, 64, 65, 127, 128, 129, 200, 257, 513, 1025, 1537, 2100]):
+            cases.append(gen.spline_case(chk.rng, order, chk.rng.choice([1, 2, 3]) if n < 500 else 1, n, with_grad=False, short=1.0))
     cpp = runner.run_harness(harness(), [c.line(i, 'Q') for i, c in enumerate(cases)])[0]
     mod = runner.run_model_sharded([c.line(i, 'Q') for i, c in enumerate(cases[:nbig])], 16)
     chk.evaluations += len(cases)
@@ -657,6 +674,17 @@ def c13(chk):
         c2.mode = 'dur'
         extra.append((q, c2))
         chk.count('magnitude disparity + tiny edit on reused objects')
+    # upstream gradients of very different magnitude per coordinate: another third of the problems get one column of dL/dC scaled
+    # by 2^-50 (a cost term with a tiny weight); propagation is linear, so that column's gradients are 2^-50 times as large and
+    # are compared on their *own* scale (a "nothing to propagate" shortcut decided on the whole matrix or with an absolute
+    # tolerance shows here)
+    for q, c in enumerate(cases):
+        if q % 3 != 1 or c.d < 2 or c.gC is None:
+            continue
+        jt = rng.randrange(c.d)
+        c.gC = [[x * 2.0 ** -50 if j == jt else x for j, x in enumerate(r)] for r in c.gC]
+        c.meta['tiny_col'] = jt
+        chk.count('one column of the upstream gradient 2^-50 times the others')
     for q, c2 in reversed(extra):
         cases.insert(q + 1, c2)
     import optlib as _ol
@@ -706,7 +734,11 @@ def c13(chk):
                     chk.violation(f'{key}: sizes differ between the D-dimensional spline and its 1-D column', c.describe()); continue
                 if not x:
                     continue
-                err = max(abs(p - q) for p, q in zip(x, y)) / block_scale(y)
+                if c.meta.get('tiny_col') == j and key in ('prop_inner', 'prop_b'):
+                    own = max([abs(v) for v in x] + [abs(v) for v in y])
+                    err = max(abs(p - q) for p, q in zip(x, y)) / own if own > 0 else Fr(0)
+                else:
+                    err = max(abs(p - q) for p, q in zip(x, y)) / block_scale(y)
                 chk.disc(f'{c.order}/col_{key}', err)
                 if err > T:
                     chk.violation(f'{key}: coordinate {j} of the D-dimensional spline differs from the 1-D spline of that coordinate',
@@ -851,6 +883,32 @@ def c14(chk):
             nrm = max(Fr(1), max(abs(x) for kk2, x in g0.items() if kk2[0] == key[0]))
             if abs(g5[mk] - sign * v) > tol * 1000 * nrm:
                 bad('time reversal does not mirror the energy gradients', {'component': key, 'got': float(g5[mk]), 'want': float(sign * v)}); break
+    # very long trajectories (beyond any block size of a blocked summation): shift and reversal, implementation against itself
+    longc = []
+    for order in (3, 5, 7):
+        for n in ([520, 1030] if not chk.thorough() else [513, 1025, 1537, 2100]):
+            c = gen.spline_case(rng, order, 1, n, with_grad=False, short=1.0)
+            c.mode = 'dur'
+            sh = copy.deepcopy(c); sh.t0 = c.t0 + 37.5
+            rv = copy.deepcopy(c)
+            rv.h = c.h[::-1]; rv.P = c.P[::-1]
+            rv.bc = [[(-1) ** (m + 1) * x for x in c.bc[3 + m]] for m in range(3)] + [[(-1) ** (m + 1) * x for x in c.bc[m]] for m in range(3)]
+            longc += [c, sh, rv]
+            chk.count('very long trajectory: shift and reversal')
+    cppl = runner.run_harness(harness(), [c.line(i, 'Q') for i, c in enumerate(longc)])[0]
+    chk.evaluations += len(longc)
+    for b in range(0, len(longc), 3):
+        c = longc[b]
+        e = [fvals(cppl[str(b + q)]['energy'])[0] for q in range(3)]
+        if cppl[str(b)]['coeffs'] != cppl[str(b + 1)]['coeffs'] or cppl[str(b)]['energy'] != cppl[str(b + 1)]['energy']:
+            chk.violation('shifting the start time changes the per-segment polynomials or the energy', c.describe())
+        if isinstance(e[0], float) or isinstance(e[2], float) or abs(e[2] - e[0]) > TOL[c.order] * 1000 * max(Fr(1), e[0]):
+            chk.violation('time reversal changes the energy', c.describe(), {'e0': float(e[0]), 'e1': float(e[2])})
+        t0s, t2s = fvals(cppl[str(b)]['egt']), fvals(cppl[str(b + 2)]['egt'])
+        if len(t0s) == len(t2s) and t0s:
+            nrm = max(Fr(1), max(abs(x) for x in t0s))
+            if max(abs(x - y) for x, y in zip(t0s, t2s[::-1])) > TOL[c.order] * 10000 * nrm:
+                chk.violation('time reversal does not mirror the energy gradients', c.describe(), {'component': 'durations'})
     chk.sample(cases[0].describe())
 
 
@@ -904,6 +962,24 @@ def c18(chk):
         if w > 1e-3 and wf < 1e-6:
             chk.mismatch('implementation loses continuity where the Float instance of the model (same algorithm) does not',
                          c.describe(), {'impl': w, 'float_model': wf})
+    # very long trajectories, through the published trajectory object and its own time axis (evaluation at every knot time,
+    # knot times against the accumulated durations): the defining equations hold at the knots the object reports
+    longc = []
+    for order in (3, 5, 7):
+        for n in ([1030] if not chk.thorough() else [513, 1025, 1537, 2100]):
+            c = gen.spline_case(rng, order, 1, n, with_grad=False, short=1.0)
+            c.mode = 'dur'
+            cum = [c.t0]
+            for x in c.h:
+                cum.append(cum[-1] + x)
+            c.evals = [(cum[i], m) for i in range(len(cum)) for m in range(S_OF[c.order])]
+            longc.append(c)
+            chk.count('very long trajectory (through the trajectory object)')
+    cppl = runner.run_harness(harness(), [c.line(i, 'Q') for i, c in enumerate(longc)])[0]
+    chk.evaluations += len(longc)
+    for i, c in enumerate(longc):
+        c01_oracle(chk, c, cppl[str(i)])
+        c02_jumps(chk, c, cppl[str(i)], thr=1e-3)
     chk.sample(cases[0].describe())
 
 
